@@ -27,11 +27,13 @@ def run (inp obs : List String) : Verdict :=
   let t := splitPath (field obs "T")
   let r := field obs "R"
   if r = "" then { agree := false, model := "no-observation" } else
-  let (mr, mfs) := saveImpl cfg f pre t
+  let (mr, mfs) := saveImpl cfg f (preForModel t pre) t
   let mList := listing mfs
   let oList := listing post
   let okClass := resClass mr == obsClass r
-  let okTree := treeMatches mList oList
+  -- an untouched symbolic link at the target is the model's entry-less directory (see `preForModel`)
+  let oListM := listing (preForModel t post)
+  let okTree := treeMatches mList oListM
   -- specification
   let preOut := (listing pre).filter fun e => !under t e.1
   let postOut := oList.filter fun e => !under t e.1
@@ -66,6 +68,6 @@ def run (inp obs : List String) : Verdict :=
     spec := s0 ++ s1 ++ s2 ++ s3,
     tags := tags,
     model := if okClass && okTree then resClass mr else
-      s!"model-res={resClass mr} impl-res={obsClass r} tree: {if okTree then "same" else firstDiff mList oList}" }
+      s!"model-res={resClass mr} impl-res={obsClass r} tree: {if okTree then "same" else firstDiff mList oListM}" }
 
 end Driver.C09
